@@ -99,7 +99,7 @@ def r1_segment_aligned(ctx):
                 return False
             acc = [c for c in g.calls() if c.name == PR + 'store::Props::set' and g.dominates(s.b, c.b) and c.b != s.b]
             if acc:
-                ok = all(any(delim_true(a) for _, a in g.guard_atoms(c.b)) for c in acc)
+                ok = all(any(delim_true(a) for _, a in g.guard_atoms(c.b, derived=True)) for c in acc)
                 detail = {'form': 'control flow', 'guarded_assignments': len(acc)}
         ctx.check(ok, 'prefix-without-delimiter:%s' % g.key.replace(UF, 'update_from'),
                   "a key accepted because it textually starts with the module's path must continue with the path delimiter '.' on every accepting path "
